@@ -215,7 +215,8 @@ func (its *jsonPrimitive) getTargetByPaths(paths []string) (jsonType, errors.Ord
 
 		switch node.getType() {
 		case TypeJSONElement:
-			its.common.L().Errorf("invalid target")
+			// a primitive value has no members: the rest of the path addresses nothing
+			return nil, errors.DatatypeNoTarget.New(its.common.L(), "invalid path:%v from %v", s, strings.Join(paths, "/"))
 		case TypeJSONObject:
 			node = node.(*jsonObject).getAsJSONType(s)
 		case TypeJSONArray:
